@@ -2,7 +2,10 @@
 //! Sim::bounce injected at scripted step indices. Serves C04.
 //!
 //! case = {"id", "cfg": {tick_ms, lat_ms, seed, random_order, mc_members: [host ..]}, "events": [ev ..], "twin": bool}
-//! (mc_members: hosts among n2, n3 that also join the multicast group 239.1.1.1:9100)
+//! (mc_members: hosts among n2, n3 that also join the multicast group 239.1.1.1:9100;
+//!  optional tcp_capacity (default 64) and busy_ticks (default 6) for the burst port 9004: the server writes
+//!  tcp_capacity records to each accepted stream and idles, client tasks G (peek + read_exact) and H (plain
+//!  reads) stay busy for busy_ticks and then drain their stream to its end)
 //! ev   = ["step"] | ["crash", sel] | ["bounce", sel] | ["probe"]
 //! sel  = {"h": i} | {"ip": i} | {"re": "regex"}          (hosts are n0 .. n3)
 //!
@@ -55,6 +58,10 @@ struct Ctx {
     tick: Duration,
     /// this host also runs a listener that is a member of the multicast group (port 9100)
     mc_member: bool,
+    /// Builder::tcp_capacity of the simulation (segments per receive window)
+    cap: usize,
+    /// how long the burst clients stay busy before they start to drain their stream
+    busy: u32,
 }
 
 impl Ctx {
@@ -239,6 +246,34 @@ async fn server(c: Ctx) -> turmoil::Result {
             }
         });
     }
+    // 9004: writes a full window (tcp_capacity records) to every accepted stream, then idles
+    {
+        let c = c.clone();
+        tokio::task::spawn_local(async move {
+            let _g = c.guard("burst");
+            let l = match TcpListener::bind(any(9004)).await {
+                Ok(l) => l,
+                Err(e) => return c.log("burst", "bind", json!(9004), json!(kind(&e))),
+            };
+            let _o = c.obj(json!(["listener", 9004]));
+            c.log("burst", "bind", json!(9004), json!("ok"));
+            loop {
+                let Ok((mut s, _)) = l.accept().await else { break };
+                let c2 = c.clone();
+                tokio::task::spawn_local(async move {
+                    let _g = c2.guard("burst_conn");
+                    let _o = c2.stream_obj(&s, "whole");
+                    for k in 0..c2.cap {
+                        if s.write_all(&[k as u8; 8]).await.is_err() {
+                            return;
+                        }
+                    }
+                    c2.log("burst", "written", json!(c2.cap), Value::Null);
+                    std::future::pending::<()>().await;
+                });
+            }
+        });
+    }
     // UDP 9100 echo + multicast membership
     {
         let c = c.clone();
@@ -299,7 +334,10 @@ async fn client(c: Ctx) -> turmoil::Result {
         });
     }
     // B: connects to the listener that never accepts
-    for i in 0..3u64 {
+    // (a listener's backlog is tcp_capacity too and overflowing it panics: stay below it)
+    // (with a small tcp_capacity only the first incarnation tries: SYNs of earlier incarnations stay queued)
+    let tries = if c.cap >= 64 || c.inc == 0 { c.cap.min(3) as u64 } else { 0 };
+    for i in 0..tries {
         let c = c.clone();
         tokio::task::spawn_local(async move {
             let _g = c.guard("B");
@@ -382,6 +420,45 @@ async fn client(c: Ctx) -> turmoil::Result {
                 }
                 id += 1;
                 tokio::time::sleep(c.tick).await;
+            }
+        });
+    }
+    // G / H: connect to the burst port, stay busy, then drain the stream to its end:
+    // G sniffs every record with peek and consumes it with read_exact, H uses plain reads
+    for (name, peeks) in [("G", true), ("H", false)] {
+        let c = c.clone();
+        tokio::task::spawn_local(async move {
+            let _g = c.guard(name);
+            // one after the other: with tcp_capacity 1 the backlog holds a single SYN
+            tokio::time::sleep(c.tick * if peeks { 2 } else { 3 }).await;
+            let mut s = match TcpStream::connect((srv, 9004)).await {
+                Ok(s) => s,
+                Err(e) => return c.log(name, "connect", json!(kind(&e)), Value::Null),
+            };
+            let _o = c.stream_obj(&s, "whole");
+            c.log(name, "connect", json!("ok"), json!(s.local_addr().unwrap().port()));
+            tokio::time::sleep(c.tick * c.busy).await;
+            c.log(name, "drain", Value::Null, Value::Null);
+            let mut total = 0usize;
+            let mut buf = [0u8; 8];
+            loop {
+                if peeks {
+                    match s.peek(&mut buf).await {
+                        Ok(0) => return c.log(name, "end", json!("eof"), json!(total)),
+                        Ok(_) => {}
+                        Err(e) => return c.log(name, "end", json!(kind(&e)), json!(total)),
+                    }
+                    match s.read_exact(&mut buf).await {
+                        Ok(_) => total += 8,
+                        Err(e) => return c.log(name, "end", json!(kind(&e)), json!(total)),
+                    }
+                } else {
+                    match s.read(&mut buf).await {
+                        Ok(0) => return c.log(name, "end", json!("eof"), json!(total)),
+                        Ok(n) => total += n,
+                        Err(e) => return c.log(name, "end", json!(kind(&e)), json!(total)),
+                    }
+                }
             }
         });
     }
@@ -585,6 +662,9 @@ fn run_once(case: &Value, with_faults: bool) -> Value {
         .max_message_latency(lat)
         .fail_rate(0.0)
         .simulation_duration(Duration::from_secs(3600));
+    let cap = cfg["tcp_capacity"].as_u64().unwrap_or(64) as usize;
+    let busy = cfg["busy_ticks"].as_u64().unwrap_or(6) as u32;
+    b.tcp_capacity(cap);
     if cfg["random_order"].as_bool().unwrap_or(false) {
         b.enable_random_order();
     }
@@ -605,7 +685,7 @@ fn run_once(case: &Value, with_faults: bool) -> Value {
                 s[h] += 1;
                 s[h] - 1
             };
-            let c = Ctx { sh: sh2.clone(), host: h, inc, tick, mc_member };
+            let c = Ctx { sh: sh2.clone(), host: h, inc, tick, mc_member, cap, busy };
             async move {
                 match h {
                     0 => server(c).await,
